@@ -16,8 +16,8 @@ import (
 type EVM struct {
 	Contracts  []common.Address
 	deployed   int
-	CallFails  bool // CallEVM returns an error
-	CallVmErr  bool // CallEVM returns a response with VmError set
+	CallFails  bool   // CallEVM returns an error
+	CallVmErr  bool   // CallEVM returns a response with VmError set
 	VmErrText  string // the VM error text (default: execution reverted)
 	Calls      int
 	BeforeCall func(ctx sdk.Context) // invoked at the start of every CallEVM (to model writes made before a failure)
